@@ -123,6 +123,7 @@ def _fold_locals(model: Model):
     if m is None:
         raise AnalysisError("anchor module vanished: y0.parser.internal")
     table: dict[str, str] = {}
+    bound_values: dict = {}
     found = False
 
     def ev_iter(e, env):
@@ -154,6 +155,10 @@ def _fold_locals(model: Model):
             return [ev_val(x, env) for x in e.elts]
         if isinstance(e, ast.JoinedStr):
             return "".join(str(ev_val(v.value, env)) if isinstance(v, ast.FormattedValue) else v.value for v in e.values)
+        if isinstance(e, ast.Call) and isinstance(e.func, ast.Name) and e.func.id == "Variable" and len(e.args) == 1 and not e.keywords:
+            return ("Variable", ev_val(e.args[0], env))
+        if isinstance(e, ast.Call) and isinstance(e.func, ast.Name) and e.func.id == "Variable" and not e.args and len(e.keywords) == 1 and e.keywords[0].arg == "name":
+            return ("Variable", ev_val(e.keywords[0].value, env))
         raise KeyError(ast.unparse(e))
 
     class Cont(Exception):
@@ -171,7 +176,12 @@ def _fold_locals(model: Model):
                             table[k.value] = ast.unparse(v)
                 elif isinstance(tg, ast.Subscript) and isinstance(tg.value, ast.Name) and tg.value.id == "LOCALS":
                     try:
-                        table[ev_val(tg.slice, env)] = ast.unparse(st.value)
+                        key = ev_val(tg.slice, env)
+                        table[key] = ast.unparse(st.value)
+                        try:
+                            bound_values[key] = ev_val(st.value, env)
+                        except KeyError:
+                            pass
                     except KeyError:
                         pass
                 elif isinstance(tg, ast.Name):
@@ -212,6 +222,7 @@ def _fold_locals(model: Model):
     run(m.tree.body, {})
     if not found:
         raise AnalysisError("anchor vanished: LOCALS dict in y0.parser.internal")
+    _fold_locals.bound_values = bound_values
     return m, table
 
 
@@ -264,6 +275,16 @@ def run(model: Model, rep: Report, tier: str) -> None:
             rep.refuted("R12.1", cons, f"`{h}` is printed by {K.name}.to_y0 but the parser binds it to `{bound}`, not to y0.dsl.{h}", f"{pm.relpath}:1")
         else:
             rep.proven("R12.1", cons, loc=f"{pm.relpath}:1", sample={"printed by": sorted({k.name for k, _ in users}), "bound to": bound})
+    # every variable name of the parser's alphabet is bound to the variable OF THAT NAME (X_1 must not read back as X1)
+    bv = getattr(_fold_locals, "bound_values", {})
+    wrong = sorted(k for k, v in bv.items() if isinstance(v, tuple) and v and v[0] == "Variable" and v[1] != k)
+    n_var = sum(1 for v in bv.values() if isinstance(v, tuple) and v and v[0] == "Variable")
+    if wrong:
+        rep.refuted("R12.1", "y0.parser.internal:LOCALS#names-bind-themselves",
+                    f"the name table binds {wrong[:4]}{'…' if len(wrong) > 4 else ''} to variables with a different name: a variable printed under that name parses back as another variable",
+                    f"{pm.relpath}:1")
+    else:
+        rep.proven("R12.1", "y0.parser.internal:LOCALS#names-bind-themselves", loc=f"{pm.relpath}:1", sample={"variable entries evaluated": n_var}, nontrivial=n_var > 0)
     rep.stats["locals_keys"] = len(table)
     rep.stats["printer_templates"] = sum(len(v) for v in pr.cache.values())
     # ------------------------------------------------------------------ R12.2
@@ -353,6 +374,40 @@ def run(model: Model, rep: Report, tier: str) -> None:
                                     f"the parser reads them back as star={parsed[True]} / star={parsed[False]} (bare names default to star={default_star})", loc(f, t.line))
         if not found:
             rep.error(f"R12.4: no hoisted-subscript template found for {n}")
+    # structural printers print exactly their OWN fields: Sum[<self.ranges>](<self.expression>), the factors of self.expressions,
+    # self.numerator / self.denominator -- a printer that looks through its operand (e.g. merges a nested Sum's ranges into its own) prints
+    # a text that parses back to a different object (and, for overlapping ranges, to a different quantity)
+    slf0 = var("self")
+    for n in ("Sum", "Product", "Fraction"):
+        K = classes.get(n)
+        if K is None:
+            continue
+        f = K.find_method("to_y0")
+        own = set(K.all_fields())
+        bad_src = []
+        seen_fields = set()
+        variants = [()] + ([(("parens", const(False)),)] if n == "Fraction" else [])
+        for kw in variants:
+            for t in pr.templates(K, kw):
+                for sl in t.slots:
+                    src = sl["src"]
+                    while src[0] == "call" and src[2] and (str(src[1]) in ("sorted", "list", "tuple") or str(src[1]).split(".")[-1].startswith("_sort")):
+                        src = src[2][0]
+                    while src[0] == "meth" and src[2].startswith("_get_sorted") and src[1] == slf0:
+                        src = ("attr", slf0, "ranges")
+                    if src[0] == "attr" and src[1] == slf0 and src[2] in own:
+                        seen_fields.add(src[2])
+                    elif src[0] == "ite":
+                        continue
+                    else:
+                        bad_src.append(short(show(src), 100))
+        cons = construct(f, f"prints-own-fields:{n}")
+        if bad_src:
+            rep.refuted("R12.4", cons, f"{n}.to_y0 prints something other than its own fields: {bad_src[0]}", loc(f))
+        elif not seen_fields:
+            rep.unknown("R12.4", cons, "no field slots recognised in the printer's templates", loc(f), required=False)
+        else:
+            rep.proven("R12.4", cons, loc=loc(f), sample={"fields printed": sorted(seen_fields)})
     f = model.func(f"{DSL}._to_interventions")
     (rep.proven if default_star is False else rep.refuted)("R12.4", construct(f, "bare-name-default"),
                                                            "" if default_star is False else f"bare subscript names default to star={default_star}", loc(f))
